@@ -508,4 +508,59 @@ theorem reachable_inv {s : State} (h : Reachable s) : Inv s := by
   obtain ⟨old, acts, hr⟩ := h
   exact inv_run (inv_init old) hr
 
+/-! ### consequences used by `Props/C08.lean` -/
+
+/-- a refused second pack: while a pack runs `packStart` is not enabled, the refusal is, and it
+    changes nothing -/
+theorem second_refused {s : State} (h : Inv s) (hr : s.phase.running = true) (T : Tid) :
+    step s (.packStart T) = none ∧ step s .packRefused = some s := by
+  have hf := h.flag hr
+  simp [step, hf]
+
+/-- effect of a failing pack -/
+theorem packFail_eq {s s' : State} (hs : step s .packFail = some s') :
+    s.phase.canFail = true ∧
+    s' = { s with phase := .idle, packFlag := false,
+                  commitLock := if s.commitLock = some .packer then none else s.commitLock } := by
+  simp only [step] at hs
+  split at hs
+  · rename_i hp
+    cases hs
+    exact ⟨hp, rfl⟩
+  · simp at hs
+
+/-- when nobody owns the commit lock a committer can begin -/
+theorem begin_enabled {s : State} (hl : s.commitLock = none) {t : Tid} (ht : ∀ u ∈ s.hist, u < t) :
+    ∃ s', step s (.begin t) = some s' := by
+  simp only [step]
+  rw [if_pos ⟨hl, ht⟩]
+  exact ⟨_, rfl⟩
+
+/-- `packedUpTo` moves only at a swap, to the maximum with that pack's time -/
+theorem packedUpTo_step {s s' : State} {a : Act} (hs : step s a = some s') :
+    (a ≠ .swapEnd → s'.packedUpTo = s.packedUpTo) ∧
+    (a = .swapEnd → s'.packedUpTo = max s.packedUpTo s.packT) := by
+  cases a <;> simp only [step] at hs <;>
+    (try split at hs) <;> (try split at hs) <;> (try split at hs) <;>
+    first
+    | (cases hs; simp)
+    | (simp at hs)
+
+/-- exactly what the swap installs -/
+theorem swapEnd_file {s s' : State} (h : Inv s) (hs : step s .swapEnd = some s') :
+    s'.file = s.kept ++ s.file.drop s.k ∧ s.kept.Sublist (s.file.take s.k) ∧
+    (∀ t ∈ s.file.take s.k, t ≤ s.packT) ∧ s'.hist = s.hist ∧ s'.returned = s.returned := by
+  simp only [step] at hs
+  split at hs
+  · rename_i hp
+    cases hs
+    obtain ⟨hk, hT⟩ := h.scan (by rw [hp]; rfl)
+    obtain ⟨hkept, hkc, hcl⟩ := h.copy (by rw [hp]; rfl)
+    have he := h.eof (Or.inr hp)
+    have htake : s.file.take s.copied = s.file := List.take_of_length_le (by omega)
+    refine ⟨?_, hkept, hT, rfl, rfl⟩
+    show s.kept ++ (s.file.take s.copied).drop s.k = _
+    rw [htake]
+  · simp at hs
+
 end Proofs.PackProto
